@@ -65,7 +65,8 @@ structure St where
   kEnter : Nat            -- Stop calls before the lock section
   kDecided : Nat          -- Stop calls INSIDE the lock section that have read "Active" and not yet written
                           -- "Stopping": while one is here it holds `sourceStateLock` (no other lock section can run)
-  kWait : Nat             -- Stop calls that switched to Stopping, before/in `RunDoneWait`
+  kWait : Nat             -- Stop calls that switched to Stopping and wait for THEIR run's done channel, still open
+  kReady : Nat            -- Stop calls whose run is over (its done channel is closed): before/at the end of the wait
   kClean : Nat            -- Stop calls after the wait, before returning
   lp : LPc
   pp : PPc
@@ -89,7 +90,7 @@ structure St where
 deriving DecidableEq, Repr
 
 def init (opens : Bool) : St :=
-  { st := .inactive, sEnter := 0, sp := .idle, kEnter := 0, kDecided := 0, kWait := 0, kClean := 0, lp := .off, pp := .off,
+  { st := .inactive, sEnter := 0, sp := .idle, kEnter := 0, kDecided := 0, kWait := 0, kReady := 0, kClean := 0, lp := .off, pp := .off,
     abortClosed := false, nbClosed := false, wg := 0, writing := false, res := false, opens,
     crashed := false, fuel := 0, flag := false, rEnter := 0, rSend := 0, rWait := 0,
     runOver := false, stopsDone := 0, asm := 0 }
@@ -124,7 +125,10 @@ def applyW (w : WEff) (b : Bool) : Bool :=
 
 /-- `RunDoneDeactivate` (state := Inactive; `runDone.Done()`): a negative counter is a Go panic -/
 def deactivate (s : St) : St :=
-  if s.wg = 0 then { s with crashed := true } else { s with st := .inactive, wg := s.wg - 1, runOver := true }
+  if s.wg = 0 then { s with crashed := true }
+  else { s with st := .inactive, wg := s.wg - 1, runOver := true,
+                -- the run's done channel is closed: every Stop caller that was stopping THIS run may go on
+                kReady := s.kReady + s.kWait, kWait := 0 }
 
 def step (s : St) (e : Ev) : Option St :=
   if s.crashed then none else
@@ -204,7 +208,8 @@ def step (s : St) (e : Ev) : Option St :=
       some { s with kDecided := s.kDecided - 1, kWait := s.kWait + 1, st := .stopping, abortClosed := true }
     else none
   | .stopWaited =>
-    if s.kWait > 0 ∧ s.wg = 0 then some { s with kWait := s.kWait - 1, kClean := s.kClean + 1 } else none
+    -- the receive on the done channel of the run this caller stopped (whatever has been started since)
+    if s.kReady > 0 then some { s with kReady := s.kReady - 1, kClean := s.kClean + 1 } else none
   | .stopCleaned =>
     if s.kClean > 0 then
       some { s with kClean := s.kClean - 1, writing := false, stopsDone := s.stopsDone + 1 } else none
@@ -247,7 +252,7 @@ def run (s : St) : List Ev → Option St
 call only when no Start call is in flight (Stops may overlap each other, self-termination and requests);
 block processing does not hit an I/O failure. -/
 def envOK (s : St) : Ev → Bool
-  | .callStart => s.kEnter + s.kDecided + s.kWait + s.kClean = 0
+  | .callStart => s.kEnter + s.kDecided + s.kWait + s.kReady + s.kClean = 0
   | .callStop => s.sEnter = 0 && s.sp = .idle
   | .processFailed => false      -- no I/O failure inside block processing (C11 treats it)
   | _ => true
@@ -273,7 +278,7 @@ def runW (s : St) : List Ev → Option St
       | none => none
     else none
 
-def stoppers (s : St) : Nat := s.kEnter + s.kDecided + s.kWait + s.kClean
+def stoppers (s : St) : Nat := s.kEnter + s.kDecided + s.kWait + s.kReady + s.kClean
 def callers (s : St) : Nat := s.rEnter + s.rSend + s.rWait
 def starters (s : St) : Nat := s.sEnter + (if s.sp = .idle then 0 else 1)
 
@@ -431,7 +436,7 @@ inductive TraceRes where
 def stCode : SrcState → Nat
   | .inactive => 0 | .starting => 1 | .active => 2 | .stopping => 3
 
-/-- a Stop caller is waiting although the run it would wait for is active and nobody closed its abort channel -/
+/-- a Stop caller is waiting on a run that is Active (nobody asked to stop it): it waits on the wrong run -/
 def badWait (s : St) : Bool := s.kWait > 0 && s.st == .active
 
 /-- run the model along an implementation trace.  Every `gotRequest` is taken with one reply, and the
@@ -440,7 +445,12 @@ def runTrace (fuel : Nat) : St → List Tok → Nat → Nat → Bool → TraceRe
   | s, [], _, n, bad => .ok s n bad
   | s, t :: ts, i, n, bad =>
     let name := t.role ++ ":" ++ t.site
-    if t.site.startsWith "obs.hold." then
+    if t.site.startsWith "obs.reuse." then
+      -- the released Stop caller has returned; the new run is active in the model too
+      if s.kWait == 0 && s.kReady == 0 && (t.site.drop 10).toString == "0." ++ toString (stCode s.st) then
+        runTrace fuel s ts (i + 1) n bad
+      else .obsMismatch i name s
+    else if t.site.startsWith "obs.hold." then
       -- during the hold: a Stop caller is waiting and the loop is alive in the model too
       if s.kWait > 0 && s.lp != .off then runTrace fuel s ts (i + 1) n bad else .obsMismatch i name s
     else if t.site == "asm.spawn" then
@@ -622,6 +632,18 @@ def chkRpcRestart : List Tok → Nat → Bool → Option String
       else chkRpcRestart ts inflight stopRet
     else chkRpcRestart ts inflight stopRet
 
+/-- implementation only: a Stop caller released after ITS run ended (a new run being active) did not return -/
+def chkReuse : List Tok → Option String
+  | [] => none
+  | t :: ts =>
+    if t.site.startsWith "obs.reuse." then
+      match (t.site.drop 10).toString.splitOn "." with
+      | [b, st] =>
+        if b != "0" then some s!"C10:stop-waits-on-next-run a Stop call parked before its wait while its run ended and a new Start succeeded stayed blocked on the NEW run (GetState() = {st})"
+        else chkReuse ts
+      | _ => chkReuse ts
+    else chkReuse ts
+
 /-- implementation only: while the core loop was held at a gate (the run alive) the pending Stop call returned -/
 def chkHold : List Tok → Option String
   | [] => none
@@ -638,7 +660,8 @@ def chkHold : List Tok → Option String
 was a Stop ⇒ the source reports Inactive; a Start issued in these schedules (always on a source whose Stops have
 returned) is never refused by `SetStateStarting`. -/
 def chkImplOnly (ln : Line) (toks : List Tok) (calls : List (String × Nat)) (fin : Fin) : Option String :=
-  if (chkHold toks).isSome then chkHold toks
+  if (chkReuse toks).isSome then chkReuse toks
+  else if (chkHold toks).isSome then chkHold toks
   else if fin.hang != 0 || calls.any (fun c => c.2 == 2) then
     some "C10:hang a Start/Stop call did not return (watchdog)"
   else if (chkAsmOverlap toks 0).isSome then chkAsmOverlap toks 0
